@@ -27,9 +27,10 @@ func allNames(kids []SNode, acc *[]string) {
 	}
 }
 
-func keyType(l SNode) string {
+// keyType: the type of the key leaf named name.
+func keyType(l SNode, name string) string {
 	for _, k := range Visible(l.Kids) {
-		if k.Name == l.Key {
+		if k.Name == name {
 			return k.Typ
 		}
 	}
@@ -48,6 +49,8 @@ func validValue(r *rand.Rand, typ string) string {
 		return intToks[r.Intn(len(intToks))]
 	case "empty":
 		return "" // the one lexical value of type empty
+	case "boolean":
+		return []string{"true", "false"}[r.Intn(2)]
 	}
 	return strToks[r.Intn(len(strToks))]
 }
@@ -90,7 +93,15 @@ walk:
 			if r.Intn(8) == 0 {
 				break walk
 			}
-			p = append(p, validValue(r, keyType(c)))
+			// the token after the list name: a value of one of the list's keys (a list with several keys
+			// has key leaves of several types; which of them the token has to fit is the specification's
+			// business).  What follows the first key value of such a list is not specified: mostly the
+			// walk ends there, sometimes it goes on like in an entry.
+			ks := c.KeyStmt()
+			p = append(p, validValue(r, keyType(c, ks[r.Intn(len(ks))])))
+			if len(ks) > 1 && r.Intn(4) != 0 {
+				break walk
+			}
 			kids = c.Kids
 		default:
 			if r.Intn(5) != 0 && (BaseType(c.Typ) != "empty" || r.Intn(2) == 0) {
